@@ -112,13 +112,39 @@ def run(ctx):
             if nv < 8:
                 ctx.violation("oracle", {"kind": "compile", "family": fam, "cfg": c["cfg"], "files": c["files"], "argv": ["s.json"]}, "%s schema under %s: %s" % (fam, opts, pb))
             nv += 1
+    # multi-file / multi-package runs through the CLI: every emitted package compiles, together, in one module
+    from props import c20
+    from vlib.clirun import Run, run_all
+    lay = c20.layouts(ctx)
+    # more package-path shapes for a cross-package reference: same last element, nested paths, a package named like a Go keyword-ish identifier
+    S = {"$id": "http://x/api", "type": "object", "properties": {"customer": {"$ref": "../db/customer.json"}, "labels": {"type": "array", "items": {"$ref": "../db/customer.json#/$defs/Label"}}}}
+    C = {"$id": "http://x/db", "type": "object", "$defs": {"Label": {"type": "string", "minLength": 1}}, "properties": {"name": {"type": "string"}, "tag": {"$ref": "#/$defs/Label"}}}
+    for pa, pb2 in (("example.com/api/model", "example.com/db/model"), ("example.com/a/b/model", "example.com/model"), ("example.com/v1", "example.com/x/v1")):
+        lay.append(("cross-package/%s+%s" % (pa, pb2), {"api/order.json": S, "db/customer.json": C},
+                    {"http://x/api": (pa, pa.split("/", 1)[1] + "/order.go"), "http://x/db": (pb2, pb2.split("/", 1)[1] + "/customer.go")}, [["api/order.json", "db/customer.json"], ["api/order.json"]], None))
+    runs = []
+    for li, (name, files, maps, arglists, same_as) in enumerate(lay):
+        fs = {"in/" + k: json.dumps(v) for k, v in files.items()}
+        for ai, args in enumerate(arglists):
+            runs.append((name, Run("ml%d_%d" % (li, ai), fs, c20.argv_for(maps, list(args)))))
+            runs.append((name, Run("mr%d_%d" % (li, ai), fs, c20.argv_for(maps, list(reversed(args))))))
+    run_all(ctx, [r for _, r in runs])
+    for name, r in runs:
+        ctx.count({"layout": name, "argv": r.argv}, True, "compile/multi-package")
+        if r.status != 0:
+            continue                          # C18 / C20 judge refusals
+        ctx.cov["programs"] += 1
+        ok, log = c20.build_outputs(ctx, "c01" + r.rid, r.created)
+        if not ok and nv < 8:
+            ctx.violation("oracle", {"kind": "cli", "files": r.files, "argv": r.argv, "run": r.describe()}, "layout %s: the emitted packages do not build together: %s" % (name, log[-400:]))
+            nv += 1
     ctx.cov["families"].update({("compile/" + k): dict(ctx.cov["families"].get("compile/" + k, {}), **v) for k, v in stats.items()})
     ctx.cov["disagreements_checked"] = len(meta)
     replay_findings(ctx)
     ctx.cov["rule"] = ("schemas of every systematic family of C05-C09/C11/C12 (thinned) and random in-guard schemas over every kind, half of them decorated with titles and "
                        "descriptions from a 14-entry text palette (newlines, quotes, comment terminators, %, backslashes, non-ASCII, U+2028, CRLF, 300 characters), each under 2 "
                        "(quick) / all 11 (thorough) option sets (extra-imports, only-models, min-sized-ints, struct-name-from-title, tag lists, capitalisations and combinations); "
-                       "oracle: gofmt-stable (go/format), go build, go vet of every emitted package; non-trivial = every program; distinct by hash of (schema, options)")
+                       "the multi-file layouts of C20 and cross-package references between packages whose import paths share their last element or are nested, through the CLI in both argument orders; oracle: gofmt-stable (go/format), go build, go vet of every emitted package; non-trivial = every program; distinct by hash of (schema, options)")
     ctx.sample({"family": meta[0][1], "options": meta[0][2], "schema": meta[0][3], "build_ok": b.case(meta[0][0])["build_ok"]})
 
 
